@@ -48,6 +48,18 @@ CLAIMED = {
      text='Right-handed orthonormal Frenet frame, tangent direction, Frenet-Serret equations with the returned curvature and torsion (continuum model), G0 = sG B0 L/(2 pi), Boozer angle zero at phi = 0 / strictly increasing / spanning one period (every grid size), d_varphi_d_phi proportional to the arclength element, elongation = ratio of singular values >= 1.',
      note='Hypotheses: admissible axis (R0 > 0, curvature != 0), harmonic sums are derivatives of each other (checked term by term numerically; the init_axis_term program is translated). Not proved: quadrature error rate; min_R0, max_elongation depend on the spectral-minimum oracle.',
      ref='DESIGN.md section 6 C03'),
+ 'C12': dict(level='proof', technique='Coq: explicit-certificate proof that the quartic is a necessary condition for a double root (regenerated coefficient program); theorems on a hand-written generic-number model of the root selection, evaluated inside Coq with PrimFloat against the implementation bit for bit; reflective dimension/sign checks of the coefficient program',
+     text='Quartic necessary condition; selection logic returns the sentinel or a positive accepted candidate, never drops a smaller selected candidate, reports the grid minimum; accepted candidates are exact zeros of the truncated Jacobian / its theta-derivative over the reals.',
+     note='Partial: completeness under the absolute float thresholds is not proved (and the model exhibits a synthetic input where a smaller accepted linear candidate is discarded in favour of the quadratic one); the identification of g0..g2c with the triple product of the position vector is checked numerically every run, not yet a theorem.',
+     ref='DESIGN.md section 6 C12'),
+ 'C16': dict(level='proof', technique='axiom-free Coq object model (all histories by induction) + structural front-end that extracts layouts / presets from the current source and has Coq check them against the model by computation + verified alias checker + model-vs-object replay inside Coq',
+     text='Names/DOF alignment, set/get round trips, state after any history = fresh construction (iff calculate is padding invariant), no caller-array alias after any mutator order, preset facts.',
+     note='calc_pad (zero-padding the axis coefficients does not change the outputs) is a hypothesis validated on every generated history. Known finding: 12 accepted-but-unadvertised preset names (tests pin both sides).',
+     ref='DESIGN.md section 6 C16'),
+ 'C17': dict(level='proof', technique='verified effect checker (Coq, axiom-free soundness over an abstract heap, all call sequences) run by vm_compute on the effect IR that a fail-closed front-end extracts from the current sources; dynamic write-set / memory-sharing correspondence',
+     text='If the checker accepts (it does, for all 19 entry points in any order and number), no protected attribute is re-bound and no object reachable from one is written, for every execution of every sequence of the entry points.',
+     note='Trusted: the front-end abstraction and its purity summaries for numpy/scipy/matplotlib (validated each run against observed writes and np.shares_memory). Four attributes recomputed by calculate_grad_grad_B_tensor are checked dynamically for value identity instead. History-independence of results is checked dynamically.',
+     ref='DESIGN.md section 6 C17'),
 }
 checks, na = [], []
 for p in props:
